@@ -9,7 +9,7 @@ From Coq Require Import Reals ZArith Lra Psatz Bool Lia List.
 From Flocq Require Import Core.Raux.
 From QV Require Import Rt.Prelude Rt.Amount Rt.Quantity Gen.Prefixes Gen.Kernels Amount.DecModel Amount.Dec.
 From QV Require Amount.Laws.
-From QV Require Import Amount.DecAcc Proofs.Laws Proofs.Kernel.
+From QV Require Import Amount.DecAcc Proofs.Laws Proofs.Kernel Proofs.C09 Proofs.Derived.
 Import Amount.Laws.
 Local Open Scope R_scope.
 
@@ -230,3 +230,81 @@ Proof.
   - intros G1 G2. rewrite Ec, (Gx G1), (Gy G2). reflexivity.
 Qed.
 End Instance.
+
+(** * C04 / C05 (decimal): derived products and quotients *)
+(** a rounded binary operation of the decimal type with its exact counterpart *)
+Definition dop_rel (op : dec -> dec -> res dec) (rop : R -> R -> R) (okr : dec -> Prop) : Prop :=
+  forall x y z, dec_ok x -> dec_ok y -> op x y = Ok z ->
+  dec_ok z /\ okr y /\ Rabs (dval z - rop (dval x) (dval y)) <= h18 /\ (grid18 (rop (dval x) (dval y)) -> dval z = rop (dval x) (dval y)).
+
+Lemma mul_dop_rel : dop_rel dec_mul Rmult (fun _ => True).
+Proof.
+  intros x y z Hx Hy H. destruct (dec_mul_acc x y z Hx Hy H) as (Hz & B & _).
+  split; [exact Hz|]. split; [exact I|]. split; [exact B|]. apply (dec_mul_exact_on_grid x y z Hx Hy H).
+Qed.
+Lemma div_dop_rel : dop_rel dec_div Rdiv (fun y => dval y <> 0).
+Proof.
+  intros x y z Hx Hy H. destruct (dec_div_acc x y z Hx Hy H) as (Hz & Hy0 & B).
+  split; [exact Hz|]. split; [exact Hy0|]. split; [exact B|]. apply (dec_div_exact_on_grid x y z Hx Hy H).
+Qed.
+
+Section DerivedDec.
+Context (op : dec -> dec -> res dec) (rop : R -> R -> R) (okr : dec -> Prop) (Hop : dop_rel op rop okr).
+Context (R0 : QFull DEC).
+Hypothesis LR : QLaws R0.
+Hypothesis Hfit : forall m, q_fit R0 m = HasRefUnit__fit R0 m.
+Hypothesis Hscales : forall w, In w (u_iter R0) -> dfit (u_scale R0 w).
+Variables su sv a b : dec.
+Hypotheses (Hu : dec_ok su) (Hv : dec_ok sv) (Ha : dec_ok a) (Hb : dec_ok b).
+
+Definition dmag_o (z : Qt R0) : R := dval (q_amount R0 z : dec) * dval (u_scale R0 (q_unit R0 z)).
+Notation AB := (rop (dval a) (dval b)).
+Notation SC := (rop (dval su) (dval sv)).
+
+(** natural unit: the amount is the rounded op of the amounts, the unit's scale the rounded op of the scales *)
+Theorem dec_derived_natural z sc w : op su sv = Ok sc -> (Z.abs (d_coeff sc) <= i128_max)%Z ->
+  HasRefUnit_unit_from_scale R0 sc = Some w ->
+  @derived_nf DEC op R0 su sv a b = Ok z ->
+  q_unit R0 z = w /\ In w (u_iter R0) /\
+  Rabs (dmag_o z - AB * SC) <= h18 * (Rabs (dval sc) + Rabs AB) /\
+  (grid18 AB -> grid18 SC -> dmag_o z = AB * SC).
+Proof.
+  intros Esc Csc Ew. unfold derived_nf. rewrite Esc. cbn [bind]. rewrite Ew.
+  destruct (op a b) as [m|] eqn:Em; cbn [bind]; [|discriminate]. intros [= <-].
+  destruct (Hop su sv sc Hu Hv Esc) as (Hsc & _ & Bsc & Gsc). destruct (Hop a b m Ha Hb Em) as (Hm & _ & Bm & Gm).
+  destruct (c09_from_scale R0 sc) as [Hs E]. rewrite <- E, Ew in Hs. destruct Hs as (l1 & l2 & E1 & Heq & _).
+  assert (Hin : In w (u_iter R0)) by (rewrite E1; apply in_or_app; right; left; reflexivity).
+  unfold dmag_o. rewrite (law_unit_new R0 LR _ _ Hin), (law_amount_new R0 LR).
+  split; [reflexivity|]. split; [exact Hin|].
+  cbn [a_eqb DEC] in Heq. apply (dec_eqb_exact _ _ (dfit_wf _ (Hscales w Hin)) (dfit_wf _ (conj Hsc Csc))) in Heq. rewrite Heq.
+  split.
+  - replace (dval m * dval sc - AB * SC) with ((dval m - AB) * dval sc + AB * (dval sc - SC)) by ring.
+    eapply Rle_trans; [apply Rabs_triang|]. rewrite !Rabs_mult. pose proof (Rabs_pos (dval sc)). pose proof (Rabs_pos AB). pose proof half_ulp18_pos. nra.
+  - intros G1 G2. rewrite (Gm G1), (Gsc G2). reflexivity.
+Qed.
+
+(** no natural unit: (op a b) * sc, rounded, re-expressed by _fit in the unit it selects *)
+Theorem dec_derived_fit z sc : op su sv = Ok sc -> HasRefUnit_unit_from_scale R0 sc = None ->
+  @derived_nf DEC op R0 su sv a b = Ok z ->
+  In (q_unit R0 z) (u_iter R0) /\
+  exists m, fit_unit R0 m = Some (q_unit R0 z) /\ Rabs (dval m - AB * SC) <= h18 * (Rabs (dval sc) + Rabs AB + 1) /\
+    Rabs (dmag_o z - dval m) <= h18 * Rabs (dval (u_scale R0 (q_unit R0 z))).
+Proof.
+  intros Esc Ew. unfold derived_nf. rewrite Esc. cbn [bind]. rewrite Ew.
+  destruct (op a b) as [t|] eqn:Et; cbn [bind]; [|discriminate]. cbn [a_mul DEC].
+  destruct (dec_mul t sc) as [m|] eqn:Em; cbn [bind]; [|discriminate].
+  rewrite Hfit, fit_spec. destruct (fit_unit R0 m) as [w|] eqn:Eu; [|discriminate]. cbn [a_div DEC].
+  destruct (dec_div m (u_scale R0 w)) as [x|] eqn:Ex; cbn [bind]; [|discriminate]. intros [= <-].
+  destruct (Hop su sv sc Hu Hv Esc) as (Hsc & _ & Bsc & _). destruct (Hop a b t Ha Hb Et) as (Ht & _ & Bt & _).
+  destruct (dec_mul_acc _ _ _ Ht Hsc Em) as (Hm & Bm & _).
+  destruct (fit_unit_in_registry R0 m w Eu) as [_ Hin]. destruct (Hscales w Hin) as [Hw _].
+  destruct (dec_div_acc _ _ _ Hm Hw Ex) as (_ & Hw0 & Bx).
+  unfold dmag_o. rewrite (law_unit_new R0 LR _ _ Hin), (law_amount_new R0 LR).
+  split; [exact Hin|]. exists m. split; [exact Eu|]. split.
+  - replace (dval m - AB * SC) with ((dval m - dval t * dval sc) + ((dval t - AB) * dval sc + AB * (dval sc - SC))) by ring.
+    eapply Rle_trans; [apply Rabs_triang|]. pose proof (Rabs_triang ((dval t - AB) * dval sc) (AB * (dval sc - SC))) as T.
+    rewrite !Rabs_mult in T. pose proof (Rabs_pos (dval sc)). pose proof (Rabs_pos AB). pose proof half_ulp18_pos. nra.
+  - replace (dval x * dval (u_scale R0 w) - dval m) with ((dval x - dval m / dval (u_scale R0 w)) * dval (u_scale R0 w)) by (field; exact Hw0).
+    rewrite Rabs_mult. apply Rmult_le_compat_r; [apply Rabs_pos|exact Bx].
+Qed.
+End DerivedDec.
